@@ -1,2 +1,112 @@
-/- C07 (statements are being added) -/
+/-
+  C07 — schemas are immutable values and all operations on them are pure: the abstract spec.
+
+  `runHistory` folds public operations over an append-only pool. The theorems say what "immutable"
+  and "pure" mean for the spec; the harness checks that the implementation refines it (pool equality
+  after every generated history, and re-observation of every entry after every step on the real code).
+-/
 import D42.Model.History
+
+namespace D42
+
+/-- the observation a caller can make of pool entry `i` (printed form; verdict on any value; equality with any entry) -/
+def observeRepr (pool : Pool) (i : Nat) : Option (List Tok) := (pool[i]?).map (fun s => represent s 0)
+def observeVerdict (env : Env) (pool : Pool) (i : Nat) (v : PyVal) : Option Nat :=
+  (pool[i]?).map (fun s => (validateP env false s v []).length)
+
+/-! ### theorems to prove -/
+
+theorem store_appends (pool : Pool) (r : Except PyExc Schema) :
+    ∃ new, (store pool r).1 = pool ++ new ∧ new.length ≤ 1 := by
+  cases r with
+  | ok s => exact ⟨[s], by simp [store]⟩
+  | error e => exact ⟨[], by simp [store]⟩
+
+theorem store_raise_unchanged (pool : Pool) (r : Except PyExc Schema) (e : PyExc)
+    (h : (store pool r).2 = .raised e) : (store pool r).1 = pool := by
+  cases r with
+  | ok s => simp [store] at h
+  | error e => simp [store]
+
+/-- one step only appends (at most one entry): nothing that exists is changed or removed -/
+theorem hstep_appends (env : Env) (pool : Pool) (op : HOp) :
+    ∃ new, (hstep env pool op).1 = pool ++ new ∧ new.length ≤ 1 := by
+  cases op <;> simp only [hstep] <;>
+    first
+      | exact store_appends _ _
+      | (split <;> first | exact store_appends _ _ | exact ⟨[], by simp⟩)
+
+/-- a failing operation (one that raises) leaves the pool exactly as it was -/
+theorem hstep_raise_unchanged (env : Env) (pool : Pool) (op : HOp) (e : PyExc)
+    (h : (hstep env pool op).2 = .raised e) : (hstep env pool op).1 = pool := by
+  cases op <;> simp only [hstep] at h ⊢ <;>
+    first
+      | exact store_raise_unchanged _ _ _ h
+      | (split at h <;> first | exact store_raise_unchanged _ _ _ h | simp at h)
+
+/-- observers (validate, represent, ==) never change the pool -/
+theorem hstep_observers_pure (env : Env) (pool : Pool) (i j : Nat) (v : PyVal) :
+    (hstep env pool (.validate i v)).1 = pool ∧ (hstep env pool (.represent i)).1 = pool ∧
+    (hstep env pool (.eq i j)).1 = pool := by
+  refine ⟨?_, ?_, ?_⟩ <;> simp only [hstep] <;> split <;> rfl
+
+/-- **immutability.** after any history every entry that existed is still there, unchanged -/
+theorem history_appends (env : Env) : ∀ (ops : List HOp) (pool : Pool),
+    ∃ new, (runHistory env pool ops).1 = pool ++ new := by
+  intro ops
+  induction ops with
+  | nil => intro pool; exact ⟨[], by simp [runHistory]⟩
+  | cons op ops ih =>
+    intro pool
+    obtain ⟨n1, h1, _⟩ := hstep_appends env pool op
+    obtain ⟨n2, h2⟩ := ih (hstep env pool op).1
+    refine ⟨n1 ++ n2, ?_⟩
+    simp only [runHistory]
+    rw [h2, h1, List.append_assoc]
+
+theorem entries_stable (env : Env) (ops : List HOp) (pool : Pool) (i : Nat) (h : i < pool.length) :
+    (runHistory env pool ops).1[i]? = pool[i]? := by
+  obtain ⟨new, hn⟩ := history_appends env ops pool
+  rw [hn, List.getElem?_append_left h]
+
+/-- … hence every observation of an existing entry is the same after any history -/
+theorem observations_stable (env : Env) (ops : List HOp) (pool : Pool) (i : Nat) (v : PyVal) (h : i < pool.length) :
+    observeRepr (runHistory env pool ops).1 i = observeRepr pool i ∧
+    observeVerdict env (runHistory env pool ops).1 i v = observeVerdict env pool i v := by
+  simp only [observeRepr, observeVerdict, entries_stable env ops pool i h, and_self]
+
+/-- the schema an operation would store / the exception it raises, as a function of the entries it names -/
+def resultOf (env : Env) (pool : Pool) : HOp → Option (Except PyExc Schema)
+  | .decl i op => (pool[i]?).map (fun s => Decl.apply s op)
+  | .subst i v => (pool[i]?).map (fun s => subst env s v)
+  | .union i j => (match pool[i]?, pool[j]? with | some a, some b => some (.ok (a.union b)) | _, _ => none)
+  | .add i j => (match pool[i]?, pool[j]? with
+      | some a, some b => some (match a.add b with | some r => .ok r | none => .error .typeError) | _, _ => none)
+  | .makeRequired i ks => (pool[i]?).map (fun s => makeRequired s ks)
+  | .fromNative v => some (fromNative v)
+  | .getItem i k => (pool[i]?).map (fun s => getItem s k)
+  | _ => none
+
+/-- **purity.** repeating an operation on the same entries gives the same result whatever was executed
+    in between (the entries it names are below the old pool length) -/
+theorem result_stable (env : Env) (ops : List HOp) (pool : Pool) (op : HOp)
+    (hnamed : match op with
+      | .decl i _ | .subst i _ | .makeRequired i _ | .getItem i _ | .validate i _ | .represent i => i < pool.length
+      | .union i j | .add i j | .eq i j => i < pool.length ∧ j < pool.length
+      | .fromNative _ => True) :
+    resultOf env (runHistory env pool ops).1 op = resultOf env pool op := by
+  cases op <;> simp only [resultOf] <;>
+    first
+      | rw [entries_stable env ops pool _ hnamed]
+      | rw [entries_stable env ops pool _ hnamed.1, entries_stable env ops pool _ hnamed.2]
+      | rfl
+
+/-- non-vacuity: a three-step history on a one-entry pool grows it to three entries, the first unchanged -/
+example : let env : Env := { rxSearch := fun _ _ => false, fl := PyFloat.fin }
+    let p0 : Pool := [.scalar (.int none none none)]
+    let r := runHistory env p0 [.decl 0 (.min (.v (.int 1))), .decl 0 (.call (.v (.str []))), .union 0 1]
+    r.1.length = 3 ∧ r.1[0]? = p0[0]? := by
+  simp [runHistory, hstep, store, Decl.apply, declScalar, argInt, asInt, bind, Except.bind, pure, Except.pure,
+    Schema.union, flattenAny]
+
+end D42
